@@ -1873,6 +1873,14 @@ def tclass_makers():
               cht.ToUInt8, cht.ToUInt16, cht.ToUInt32, cht.ToUInt64, cha.Empty, cha.NotEmpty, cha.Length):
         reg(c.__module__.split(".")[-1] + "." + c.__name__, c, (lambda c_: lambda F: c_(F()))(c))
     reg("functions.Count/distinct", fn.Count, lambda F: fn.Count(F()).distinct())
+    # a QUALIFIED star (table.star / Star(table) / sub-query.star) as a function argument keeps its source's qualifier
+    reg("functions.Count/star", fn.Count, lambda F: fn.Count(F.star()))
+    reg("functions.Count/star-distinct", fn.Count, lambda F: fn.Count(F.star()).distinct())
+    reg("functions.Count/star-and-field", fn.Count, lambda F: fn.Count(F.star()) + fn.Count(F()))
+    reg("analytics.Count/star-over", an.Count, lambda F: an.Count(F.star()).over(F()).orderby(F(), order=Order.desc))
+    reg("terms.Function/star-arg", T.Function, lambda F: T.Function("F", F.star(), F()))
+    reg("terms.AggregateFunction/star-arg", T.AggregateFunction, lambda F: T.AggregateFunction("AGG", F.star()))
+    reg("functions.Coalesce/star-count", fn.Coalesce, lambda F: fn.Coalesce(fn.Count(F.star()), 0))
     reg("functions.DistinctOptionFunction", fn.DistinctOptionFunction, lambda F: fn.DistinctOptionFunction("CNT", F()).distinct())
     reg("functions.ApproximatePercentile", fn.ApproximatePercentile, lambda F: fn.ApproximatePercentile(F(), 0.5))
     reg("functions.Cast", fn.Cast, lambda F: fn.Cast(F(), "INT"))
@@ -2054,12 +2062,24 @@ def build_tclass(case):
     else:
         raise ValueError(shape)
 
+    stars = []
+
     def F():
         n[0] += 1
         src = srcs[(n[0] - 1) % len(srcs)]
         name = "zq%d" % n[0]
         exp[name] = src
         return Field(name, table=src[0])
+
+    def star():
+        from pypika.terms import Star
+        n[0] += 1
+        src = srcs[(n[0] - 1) % len(srcs)]
+        stars.append(src)
+        # the public spellings: Selectable.star (tables, sub-queries) and Star(table)
+        return src[0].star if n[0] % 2 else Star(src[0])
+    F.star = star
+    build_tclass.stars = stars
     term = tclass_makers()[case["variant"]][2](F)
     owner = type(term).get_sql.__qualname__.split(".")[0] + "@" + type(term).get_sql.__module__
     build_tclass.owner = owner
@@ -2101,7 +2121,10 @@ def run_tclass(case):
     names = {}
     for k, (obj, nm, has_alias, kind) in exp.items():
         names[k] = [getattr(obj, "alias", None) or getattr(obj, "_table_name", None), bool(getattr(obj, "alias", None)), kind]
-    return {"text": text, "obs": observe(text), "exp": names, "multi": multi, "owner": build_tclass.owner}
+    star_exp = [[getattr(o_, "alias", None) or getattr(o_, "_table_name", None), bool(getattr(o_, "alias", None)), k_]
+                for o_, _, _, k_ in build_tclass.stars]
+    return {"text": text, "obs": observe(text), "exp": names, "multi": multi, "owner": build_tclass.owner,
+            "star_exp": star_exp, "star_obs": [q_ for n_, q_, _, _ in observe_full(text) if n_ == "*"]}
 
 
 def _tclass_sig(outcome, why):
@@ -2133,6 +2156,18 @@ def oracle_tclass(case, outcome):
             viols.append({"signature": _tclass_sig(outcome, why),
                           "what": "%s in %s / %s: reference %s bound to %r written with qualifier %r in %r"
                                   % (case["variant"], case["shape"], case["clause"], n, name, qual, outcome["text"][:300])})
+    # qualified stars bound to a source: each must be written <source name>.* when the source has an alias or several row
+    # sources are in scope (compared as multisets: the k-th expected name needs its own occurrence)
+    seen_stars = list(outcome.get("star_obs", []))
+    for name, has_alias, kind in outcome.get("star_exp", []):
+        if not (has_alias or outcome["multi"]):
+            continue
+        if name in seen_stars:
+            seen_stars.remove(name)
+        else:
+            viols.append({"signature": _tclass_sig(outcome, "star-qualifier-lost"),
+                          "what": "%s in %s / %s: the star bound to %r (%s) is not written %r.* in %r"
+                                  % (case["variant"], case["shape"], case["clause"], name, kind, name, outcome["text"][:300])})
     lost = sorted(set(outcome["exp"]) - seen)
     if lost and not outcome["text"].startswith("!"):
         viols.append({"signature": _tclass_sig(outcome, "reference-not-rendered"),
